@@ -1461,6 +1461,170 @@ def gen_memo(repo):
 
 GENERATORS["MemoGen"] = gen_memo
 
+
+# ---------------------------------------------------------------------------------------------------------------------------
+# the published helpers behind cache_step: optimal_extra_steps / optimal_steps_binomial (multistage.py) and optimal_steps_mixed
+# (mixed.py) -> fuelled recursions in the shapes of Proofs/HelperGenSpec.v and Proofs/MixHelperSpec.v
+class HelperTr(MemoTr):
+    """integer-valued recursive helper f(n, s): raises, returns of pure values, a running optional best (`m = None` / for / `if m is None
+    or v < m: m = v` / `if m is None: raise`), or a running minimum (`m = <calls>` / for / `m = min(m, <calls>)`), `return m`"""
+
+    def __init__(self, fname, self_gen, py_for, none_or):
+        MemoTr.__init__(self, fname, self_gen)
+        self.py_for, self.none_or = py_for, none_or
+
+    def monadic(self, e, env):
+        calls = []
+
+        def go(x):
+            if isinstance(x, ast.Call) and isinstance(x.func, ast.Name) and x.func.id == self.fname and len(x.args) == 2 and not x.keywords:
+                v = "xy"[len(calls)] if len(calls) < 2 else "v%d" % len(calls)
+                calls.append((v, self.pure(x.args[0], env), self.pure(x.args[1], env)))
+                return v
+            if isinstance(x, ast.BinOp) and type(x.op) in BIN:
+                l = go(x.left)
+                r = go(x.right)
+                return "(%s %s %s)" % (l, BIN[type(x.op)], r)
+            return self.pure(x, env)
+        val = go(e)
+        out = "Ok (%s)" % val
+        for v, a, b in reversed(calls):
+            out = "do %s <- %s f %s %s; %s" % (v, self.self_gen, a, b, out)
+        return "(%s)" % out
+
+    def loop_header(self, lp, env):
+        it = lp.iter
+        if not (isinstance(lp.target, ast.Name) and isinstance(it, ast.Call) and isinstance(it.func, ast.Name) and it.func.id == "range" and len(it.args) == 2
+                and not it.keywords and not lp.orelse):
+            raise Untranslatable("loop header")
+        if lp.target.id in env:
+            raise Untranslatable("the loop variable shadows " + lp.target.id)
+        return lp.target.id, self.pure(it.args[0], env), self.pure(it.args[1], env)
+
+    def block(self, stmts, env, best=None):
+        """best: None | ('opt', m) an optional running best | ('val', m) an integer"""
+        if not stmts:
+            raise Untranslatable("control reaches the end of the function")
+        s, rest = stmts[0], stmts[1:]
+        if isinstance(s, ast.If) and len(s.body) == 1 and isinstance(s.body[0], ast.Raise) and not s.orelse:
+            exc = s.body[0].exc.func.id if isinstance(s.body[0].exc, ast.Call) and isinstance(s.body[0].exc.func, ast.Name) else None
+            if exc not in EXN:
+                raise Untranslatable("exception %s" % exc)
+            if best and best[0] == "opt" and self.is_none_test(s.test, best[1]):
+                return "match %s with None => Err %s | Some %s =>\n  %s end" % (best[1], exc, best[1], self.block(rest, env, ("val", best[1])))
+            if best:
+                raise Untranslatable("a raise after the loop that is not `if m is None`")
+            return "if %s then Err %s else\n  %s" % (self.cond(s.test, env), exc, self.block(rest, env, best))
+        if isinstance(s, ast.If) and len(s.body) == 1 and isinstance(s.body[0], ast.Return) and best is None:
+            if s.orelse and rest:
+                raise Untranslatable("statements after an if/else that returns")
+            return "if %s then Ok (%s) else\n  %s" % (self.cond(s.test, env), self.pure(s.body[0].value, env), self.block(s.orelse if s.orelse else rest, env, best))
+        if isinstance(s, ast.Assign) and len(s.targets) == 1 and isinstance(s.targets[0], ast.Name) and best is None and s.targets[0].id not in env:
+            b = s.targets[0].id
+            if not rest or not isinstance(rest[0], ast.For):
+                raise Untranslatable("`%s = ...` is not followed by the loop" % b)
+            iv, lo, hi = self.loop_header(rest[0], env)
+            lb = _strip_doc(rest[0].body)
+            el = dict(env); el[iv] = iv
+            if isinstance(s.value, ast.Constant) and s.value.value is None:
+                # m = None; for i in range(lo, hi): v = <calls>; if m is None or v < m: m = v
+                if len(lb) != 2 or not (isinstance(lb[0], ast.Assign) and len(lb[0].targets) == 1 and isinstance(lb[0].targets[0], ast.Name)) \
+                        or not isinstance(lb[1], ast.If) or lb[1].orelse or len(lb[1].body) != 1:
+                    raise Untranslatable("loop body shape")
+                cv = lb[0].targets[0].id
+                if cv in el or cv == b:
+                    raise Untranslatable("the candidate shadows a variable")
+                a = lb[1].body[0]
+                if not (isinstance(a, ast.Assign) and len(a.targets) == 1 and isinstance(a.targets[0], ast.Name) and a.targets[0].id == b
+                        and isinstance(a.value, ast.Name) and a.value.id == cv):
+                    raise Untranslatable("loop update")
+                t = lb[1].test
+                if not (isinstance(t, ast.BoolOp) and isinstance(t.op, ast.Or) and len(t.values) == 2 and self.is_none_test(t.values[0], b)):
+                    raise Untranslatable("loop update test")
+                val = self.monadic(lb[0].value, el)
+                el2 = dict(el); el2[cv] = cv; el2[b] = b
+                upd = "if %s %s (fun %s => %s) then Some %s else %s" % (self.none_or, b, b, self.cond(t.values[1], el2), cv, b)
+                loop = "%s (Z.to_nat (%s - %s)) %s\n            (fun %s %s => do %s <- %s;\n                        Ok (%s)) None" % (self.py_for, hi, lo, lo, iv, b, cv, val, upd)
+                return "do %s <- %s;\n  %s" % (b, loop, self.block(rest[1:], env, ("opt", b)))
+            # m = <calls>; for i in range(lo, hi): m = min(m, <calls>)
+            if len(lb) != 1 or not (isinstance(lb[0], ast.Assign) and len(lb[0].targets) == 1 and isinstance(lb[0].targets[0], ast.Name) and lb[0].targets[0].id == b):
+                raise Untranslatable("loop body shape")
+            c = lb[0].value
+            if not (isinstance(c, ast.Call) and isinstance(c.func, ast.Name) and c.func.id == "min" and len(c.args) == 2 and not c.keywords
+                    and isinstance(c.args[0], ast.Name) and c.args[0].id == b):
+                raise Untranslatable("loop update is not m = min(m, ...)")
+            init = self.monadic(s.value, env)
+            val = self.monadic(c.args[1], el)
+            loop = "%s (Z.to_nat (%s - %s)) %s\n            (fun %s %s => do v_ <- %s; Ok (Z.min %s v_)) %s" % (self.py_for, hi, lo, lo, iv, b, val, b, b)
+            return "do %s <- %s;\n  do %s <- %s;\n  %s" % (b, init, b, loop, self.block(rest[1:], env, ("val", b)))
+        if isinstance(s, ast.Return) and best and best[0] == "val" and isinstance(s.value, ast.Name) and s.value.id == best[1] and not rest:
+            return "Ok %s" % best[1]
+        raise Untranslatable("statement " + ast.dump(s)[:100])
+
+
+def _helper_fn(repo, path, name):
+    tree = ast.parse(open(os.path.join(repo, "checkpoint_schedules", path)).read())
+    fns = {n.name: n for n in tree.body if isinstance(n, ast.FunctionDef)}
+    f = fns.get(name)
+    if f is None or [a.arg for a in f.args.args] != ["n", "s"] or f.args.vararg or f.args.kwarg or f.args.kwonlyargs or f.args.defaults:
+        raise Untranslatable("def %s(n, s)" % name)
+    if sum(1 for n in ast.walk(tree) if (isinstance(n, (ast.FunctionDef, ast.ClassDef)) and n.name == name)
+           or (isinstance(n, (ast.Assign, ast.AugAssign, ast.AnnAssign)) and name in [ast.unparse(t) for t in (n.targets if isinstance(n, ast.Assign) else [n.target])])
+           or (isinstance(n, (ast.Import, ast.ImportFrom)) and any((a.asname or a.name) == name for a in n.names))) != 1:
+        raise Untranslatable("%s is rebound" % name)
+    return tree, fns, f
+
+
+def _check_cache_step(repo):
+    tree = ast.parse(open(os.path.join(repo, "checkpoint_schedules", "mixed.py")).read())
+    cs = {n.name: n for n in tree.body if isinstance(n, ast.FunctionDef)}.get("cache_step")
+    if cs is None or (ast.unparse(cs.args), "\n".join(ast.unparse(x) for x in _strip_doc(cs.body))) != CACHE_STEP or cs.decorator_list:
+        raise Untranslatable("cache_step is not the clamping memoiser the model assumes")
+
+
+def gen_helper(repo):
+    _check_cache_step(repo)
+    tree, fns, f = _helper_fn(repo, "multistage.py", "optimal_extra_steps")
+    # multistage.py takes cache_step from mixed.py, once
+    imps = [n for n in tree.body if isinstance(n, ast.ImportFrom) and any((a.asname or a.name) == "cache_step" for a in n.names)]
+    if len(imps) != 1 or imps[0].module != "mixed" or imps[0].level != 1 or any(a.name == "cache_step" and a.asname for a in imps[0].names) or "cache_step" in fns:
+        raise Untranslatable("multistage.py: cache_step is not `from .mixed import cache_step`")
+    if [ast.unparse(d) for d in f.decorator_list] != ["cache_step"]:
+        raise Untranslatable("@cache_step def optimal_extra_steps(n, s)")
+    body = HelperTr("optimal_extra_steps", "oes_gen", "py_forB", "none_orB").block(_strip_doc(f.body), {"n": "n", "s": "s"})
+    _, _, g = _helper_fn(repo, "multistage.py", "optimal_steps_binomial")
+    gb = _strip_doc(g.body)
+    if g.decorator_list or len(gb) != 1 or not isinstance(gb[0], ast.Return):
+        raise Untranslatable("optimal_steps_binomial: a single return")
+    osb = HelperTr("optimal_extra_steps", "oes_gen", "py_forB", "none_orB").monadic(gb[0].value, {"n": "n", "s": "s"}).replace("oes_gen f ", "oes_gen fuel ")
+    return "\n".join(["(* GENERATED by harness/translate.py from checkpoint_schedules/multistage.py (optimal_extra_steps behind cache_step, optimal_steps_binomial) -- do not edit *)",
+                      "From Coq Require Import ZArith List Bool.", "From CS Require Import BinomDP HelperGenSpec.", "Open Scope Z_scope.", "",
+                      "Fixpoint oes_gen (fuel : nat) (n s : Z) : res Z :=", "  match fuel with O => Err OutOfFuel | S f =>",
+                      "  let s := Z.min s (n - 1) in", "  " + body, "  end.",
+                      "Definition osb_gen (fuel : nat) (n s : Z) : res Z := %s." % osb,
+                      "Lemma oes_gen_is_shape : oes_gen = oes_shape.", "Proof. reflexivity. Qed.",
+                      "Lemma osb_gen_is_shape : osb_gen = osb_shape.", "Proof. reflexivity. Qed.",
+                      "Lemma oes_gen_is_model : forall fuel n s, oes_gen fuel n s = Em fuel n s.", "Proof. rewrite oes_gen_is_shape. exact oes_shape_is_Em. Qed.", ""]) + "\n"
+
+
+GENERATORS["HelperGen"] = gen_helper
+
+
+def gen_mixhelper(repo):
+    _check_cache_step(repo)
+    tree, fns, f = _helper_fn(repo, "mixed.py", "optimal_steps_mixed")
+    if [ast.unparse(d) for d in f.decorator_list] != ["cache_step"]:
+        raise Untranslatable("@cache_step def optimal_steps_mixed(n, s)")
+    body = HelperTr("optimal_steps_mixed", "osm_gen", "py_for", "none_or").block(_strip_doc(f.body), {"n": "n", "s": "s"})
+    return "\n".join(["(* GENERATED by harness/translate.py from checkpoint_schedules/mixed.py (optimal_steps_mixed behind cache_step) -- do not edit *)",
+                      "From Coq Require Import ZArith List Bool.", "From CS Require Import Actions Mixed MemoGenSpec MixHelperSpec.", "Open Scope Z_scope.", "",
+                      "Fixpoint osm_gen (fuel : nat) (n s : Z) : res Z :=", "  match fuel with O => Err OutOfFuel | S f =>",
+                      "  let s := Z.min s (n - 1) in", "  " + body, "  end.",
+                      "Lemma osm_gen_is_shape : osm_gen = osm_shape.", "Proof. reflexivity. Qed.", ""]) + "\n"
+
+
+GENERATORS["MixHelperGen"] = gen_mixhelper
+
 # ---------------------------------------------------------------------------------------------------------------------------
 # hrevolve.py: RevolveCheckpointSchedule._iterator (the converter of the four Revolve-family classes) -> coq/Model/GenLang4.v
 ZL4 = {"i": "Li", "n_0": "Ln_0", "n_1": "Ln_1", "w_n0": "Lw_n0", "d_n0": "Ld_n0"}
